@@ -119,6 +119,22 @@ def check_set(points):
     if base is None:
         return out
     L = base
+    # what is NOT the id of a trap of this layout is refused (negative numbers, n, n+1, a repeated id) - also through a mappable register
+    from pulser.register.mappable_reg import MappableRegister
+
+    for bad in [(-1,), (-n,), (n,), (n + 1,), (0, -1), (0, 0)] + ([(0, n - 1, -n)] if n >= 2 else []):
+        try:
+            r = L.define_register(*bad)
+            out.append((f"C19:invalid-trap-id-accepted:{tag}", f"define_register{bad} on {n} traps gave qubits at {[tuple(np.asarray(v.as_array() if hasattr(v, 'as_array') else v).tolist()) for v in r.qubits.values()]}"))
+        except (ValueError, TypeError, IndexError, KeyError):
+            pass
+        if len(set(bad)) == len(bad):
+            try:
+                mr = MappableRegister(L, *[f"m{j}" for j in range(len(bad))])
+                mr.build_register({f"m{j}": t for j, t in enumerate(bad)})
+                out.append((f"C19:invalid-trap-id-accepted:mappable:{tag}", f"build_register with trap ids {bad} on {n} traps"))
+            except (ValueError, TypeError, IndexError, KeyError):
+                pass
     # registers from trap ids: every ordered selection of <= 3 traps
     for k in range(1, min(3, n) + 1):
         for sel in itertools.permutations(range(n), k):
